@@ -1114,6 +1114,16 @@ class FnTranslator:
                 if e[0] == "mcall" and e[2] == "clone" and not e[4]: owned.add(pat[1])
                 else: owned.discard(pat[1])
             want = self.u.resolve(ty, self.impl) if ty is not None else None
+            if want is None and pat[0] == "pvar" and e[0] == "struct" and len(e) > 3 and e[3] is None \
+                    and not self.mentions([rest, tail], pat[1]):
+                # (round 9, bfn) `let x = S { .. };` whose only readers are logging macros (dropped): the literal would have
+                # no expected type in Lean; its field expressions are still evaluated (their panics stay), the value is not bound
+                pre = []
+                self.expr(e, env, pre, None)
+                self.dropped.append("local `%s` (line %d): a struct literal only read by dropped logging macros" % (pat[1], line))
+                env2 = dict(env)
+                env2[pat[1]] = ("dropped",)
+                return self.wrap(pre, self.stmts(rest, tail, env2, fin))
             if want is None and pat[0] == "pvar" and e[0] == "call" and e[1][0] == "path" and len(e[1][1]) == 2 \
                     and e[1][1][1] in ("new", "with_capacity", "default") and self.f["body"][2] == ("path", [pat[1]]) \
                     and self.val_ty[0] in ("vec", "map", "umap", "set", "uset"):
@@ -2932,6 +2942,19 @@ class FnTranslator:
             return v, rt, "val"
         if not terms: return ident, rt, "val"
         return "(%s %s)" % (ident, " ".join(terms)), rt, "val"
+
+    def mentions(self, a, name):
+        """does the AST `a` read the variable `name`?  Logging macros do not count (they are dropped); the argument tokens of
+        every other macro do."""
+        if isinstance(a, tuple):
+            if len(a) == 2 and a[0] == "path" and a[1] == [name]: return True
+            if a and a[0] == "macro":
+                if a[1] in ("trace", "debug", "info", "warn", "error") or a[1] in getattr(self.u, "log_macros", ()): return False
+                return any(getattr(tk, "k", None) == "id" and tk.s == name for tk in a[2])
+            return any(self.mentions(y, name) for y in a)
+        if isinstance(a, list):
+            return any(self.mentions(y, name) for y in a)
+        return False
 
     def closure_external(self, name, recv, args, env, pre, wr):
         """(round 9) `recv.m(a…, |x| BODY)` for a method declared `"Type.m": {"closure": "X", "params": [..]}` (the shape of
